@@ -87,7 +87,7 @@ func (c *config) format(file ast.Node, filename string) error {
 			return err
 		}
 	} else {
-		fmt.Println(buf.String())
+		fmt.Print(buf.String())
 	}
 
 	return nil
@@ -132,11 +132,20 @@ func (c *config) rewrite(node ast.Node) (ast.Node, error) {
 
 		// Now we make updates
 		for _, f := range x.Fields.List {
+			name := fieldName(f)
 			if c.excludePrivate {
-				r, _ := utf8.DecodeRuneInString(f.Names[0].Name)
+				r, _ := utf8.DecodeRuneInString(name)
 				if unicode.IsLower(r) {
 					continue
 				}
+			}
+			if len(f.Names) > 1 {
+				// A tag applies to every name in the declaration, so they
+				// would all get the same index
+				if f.Tag == nil || !hasPlencTag(f.Tag.Value) {
+					recordError(f, fmt.Errorf("fields %s share one declaration and would share one plenc tag: declare them separately", name))
+				}
+				continue
 			}
 			if f.Tag == nil {
 				f.Tag = &ast.BasicLit{}
@@ -195,6 +204,46 @@ func (c *config) isExcluded(tags *structtag.Tags) bool {
 	return false
 }
 
+// fieldName returns the name of a field. For an embedded field this is the name
+// of its type. For a declaration with several names it is all of them.
+func fieldName(f *ast.Field) string {
+	if len(f.Names) == 0 {
+		return embeddedName(f.Type)
+	}
+	name := f.Names[0].Name
+	for _, n := range f.Names[1:] {
+		name += ", " + n.Name
+	}
+	return name
+}
+
+func embeddedName(e ast.Expr) string {
+	switch e := e.(type) {
+	case *ast.Ident:
+		return e.Name
+	case *ast.StarExpr:
+		return embeddedName(e.X)
+	case *ast.SelectorExpr:
+		return e.Sel.Name
+	case *ast.IndexExpr:
+		return embeddedName(e.X)
+	case *ast.IndexListExpr:
+		return embeddedName(e.X)
+	case *ast.ParenExpr:
+		return embeddedName(e.X)
+	}
+	return ""
+}
+
+func hasPlencTag(tag string) bool {
+	tags, err := extractTags(tag)
+	if err != nil {
+		return false
+	}
+	_, err = tags.Get("plenc")
+	return err == nil
+}
+
 func extractTags(tag string) (*structtag.Tags, error) {
 	if tag == "" {
 		return &structtag.Tags{}, nil
@@ -205,7 +254,15 @@ func extractTags(tag string) (*structtag.Tags, error) {
 		return nil, fmt.Errorf("could not unquote tags. %w", err)
 	}
 
-	return structtag.Parse(tag)
+	tags, err := structtag.Parse(tag)
+	if err != nil {
+		return nil, err
+	}
+	if tags == nil {
+		// structtag returns nil, nil for a tag that is empty or all spaces
+		tags = &structtag.Tags{}
+	}
+	return tags, nil
 }
 
 func plencValue(tag string) (int, error) {
